@@ -414,8 +414,10 @@ def grow(rng, e, depth, bad_rate=0.06):
         shape = tuple(o.shape)
         bad = rng.random() < bad_rate
         if kind == 'slr':
-            ops = ['neg', 'add', 'sub', 'addcsr', 'subcsr', 'mul', 'T', 'ldot', 'rdot', 'astype', 'b2d', 'b2u',
+            ops = ['neg', 'add', 'sub', 'addcsr', 'subcsr', 'mul', 'T', 'ldot', 'rdot', 'astype',
                    'normalize', 'add', 'sub', 'T', 'ldot', 'rdot']
+            if shape[0] + shape[1] <= 10:
+                ops += ['b2d', 'b2u']            # the block forms double the size: at most twice in a row
             if shape[0] == shape[1]:
                 ops += ['d2u', 'd2u']
             if bad:
